@@ -124,3 +124,90 @@ Theorem C03_source_builder_endings :
   small_of "IntrusiveArrayBuilder" "finish" = Some ["debug_assert ! (self . is_full ()) ;"; "mem :: forget (self)"] /\
   gen_array_builder_extend = gen_extend.
 Proof. repeat split. Qed.
+
+(* ---- T3: the operations the histories are made of, AS THEY STAND IN THE SOURCE (regenerated on every run):
+        the pointer programs of src/sequence.rs return exactly the moved elements and run no destructor
+        (event list []); map / zip / fold release every input element exactly once or return it, whatever
+        panics; the iterator methods and the iterator's Drop are the hub functions of Iter.v; collecting
+        is the hub function of Collect.v; the owned regroupings are one const_transmute ---- *)
+From GA Require PtrProg PtrTie.
+From GAGen Require GenSeq.
+
+Theorem C03_source_sequence_ops_only_move : forall (l m : list Z) (x : Z) (k K : nat) (idx : Z),
+  PtrProg.run GenSeq.gen_append (List.length l) k [("self", PtrProg.VArr l); ("last", PtrProg.VElem x)]
+    = (SeqOps.Ok [PtrProg.VArr (l ++ [x])], []) /\
+  PtrProg.run GenSeq.gen_prepend (List.length l) k [("self", PtrProg.VArr l); ("first", PtrProg.VElem x)]
+    = (SeqOps.Ok [PtrProg.VArr (x :: l)], []) /\
+  PtrProg.run GenSeq.gen_concat (List.length l) (List.length m) [("self", PtrProg.VArr l); ("rest", PtrProg.VArr m)]
+    = (SeqOps.Ok [PtrProg.VArr (l ++ m)], []) /\
+  PtrProg.run GenSeq.gen_pop_back (List.length (l ++ [x])) k [("self", PtrProg.VArr (l ++ [x]))]
+    = (SeqOps.Ok [PtrProg.VArr l; PtrProg.VElem x], []) /\
+  PtrProg.run GenSeq.gen_pop_front (List.length (x :: l)) k [("self", PtrProg.VArr (x :: l))]
+    = (SeqOps.Ok [PtrProg.VElem x; PtrProg.VArr l], []) /\
+  (K <= List.length l ->
+   PtrProg.run GenSeq.gen_split (List.length l) K [("self", PtrProg.VArr l)]
+    = (SeqOps.Ok [PtrProg.VArr (firstn K l); PtrProg.VArr (skipn K l)], [])) /\
+  ((0 <= idx < zlen l)%Z ->
+   (exists r, SeqOps.vec_remove (Z.to_nat idx) l = Some r /\
+      PtrProg.run_tail GenSeq.gen_remove "remove_unchecked" GenSeq.gen_remove_unchecked (List.length l) k
+        [("self", PtrProg.VArr l); ("idx", PtrProg.VUsize idx)] = (SeqOps.Ok (PtrTie.rm_out r), [])) /\
+   (exists r, SeqOps.vec_swap_remove (Z.to_nat idx) l = Some r /\
+      PtrProg.run_tail GenSeq.gen_swap_remove "swap_remove_unchecked" GenSeq.gen_swap_remove_unchecked (List.length l) k
+        [("self", PtrProg.VArr l); ("idx", PtrProg.VUsize idx)] = (SeqOps.Ok (PtrTie.rm_out r), []))).
+Proof.
+  exact (fun l m x k K idx =>
+    conj (PtrTie.src_append l x k) (conj (PtrTie.src_prepend l x k) (conj (PtrTie.src_concat l m)
+    (conj (PtrTie.src_pop_back l x k) (conj (PtrTie.src_pop_front l x k) (conj (PtrTie.src_split K l)
+    (fun H => conj (PtrTie.src_remove l idx k H) (PtrTie.src_swap_remove l idx k H)))))))).
+Qed.
+
+From GA Require PipeTie MuRust IterTie CollectTie.
+From GAGen Require GenPipe GenIter.
+
+(* map / zip / fold of the array, as regenerated: whatever call of the caller's function panics (and when none does),
+   every element of every owned input and every value already produced is released exactly once or returned *)
+Theorem C03_source_map_zip_fold_accounted : forall f g pan a b so nd init,
+  (let '(o, m, t, e, c) := Pipe.run_from_iter [a] so f g pan (PipeTie.pipe_of GenPipe.gen_map nd) (List.length a) in
+   Permutation (a ++ produced f 0 (firstn (completed pan (List.length a)) (map (fun x => [x]) a)))%list
+               (releases (m ++ t ++ e) ++ match o with Ok r => r | _ => [] end)%list) /\
+  (List.length a = List.length b -> Pipe.nd_eval nd (Pipe.NdOr (Pipe.NdArg 0) (Pipe.NdArg 1)) = true ->
+   let '(o, m, t, e, c) := Pipe.run_from_iter [b; a] so f g pan (PipeTie.pipe_of GenPipe.gen_inverted_zip nd) (List.length a) in
+   Permutation (a ++ b ++ produced f 0 (firstn (completed pan (List.length a)) (PipeTie.zrows a b)))%list
+               (releases (m ++ t ++ e) ++ match o with Ok r => r | _ => [] end)%list) /\
+  (let '(o, m, t, c) := Pipe.run_fold [a] so f g pan (PipeTie.pipe_of GenPipe.gen_fold nd) (List.length a) init in
+   releases (m ++ t) = a).
+Proof.
+  exact (fun f g pan a b so nd init =>
+    conj (PipeTie.src_map_accounted f g pan a so nd)
+    (conj (PipeTie.src_zip_accounted f g pan a b so nd) (PipeTie.src_fold_accounted f g pan a so nd init))).
+Qed.
+
+(* the by-value iterator's methods and its Drop, as regenerated from src/iter.rs, are the hub functions of Iter.v
+   that the pool model's iterator operations use *)
+Theorem C03_source_iterator : forall s b n, Inv s -> IterTie.bounded s -> (0 <= n < MuRust.two64)%Z ->
+  MuRust.call GenIter.iter_table IterTie.DEPTH "next" [] (MuRust.embed s) b = IterTie.lift3 (next s) b /\
+  MuRust.call GenIter.iter_table IterTie.DEPTH "next_back" [] (MuRust.embed s) b = IterTie.lift3 (next_back s) b /\
+  MuRust.call GenIter.iter_table IterTie.DEPTH "nth" [MuRust.VInt n] (MuRust.embed s) b = IterTie.lift4 (nth_ b s n) /\
+  MuRust.call GenIter.iter_table IterTie.DEPTH "nth_back" [MuRust.VInt n] (MuRust.embed s) b = IterTie.lift4 (nth_back_ b s n) /\
+  IterTie.drop3 (MuRust.call GenIter.iter_table IterTie.DEPTH "drop" [] (MuRust.embed s) b) =
+  (let '(fired, b', e) := drop_it b s in ((if fired then MuRust.MPanic else MuRust.MRet MuRust.VUnit), b', e)).
+Proof.
+  exact (fun s b n HI Hb Hn =>
+    conj (IterTie.tie_next s b HI Hb) (conj (IterTie.tie_next_back s b HI Hb)
+    (conj (IterTie.tie_nth s b n HI Hb Hn) (conj (IterTie.tie_nth_back s b n HI Hb Hn) (IterTie.tie_drop s b HI Hb))))).
+Qed.
+
+(* collecting (try_from_iter / try_boxed_from_iter with the builder's extend), as regenerated, is Collect.v's function *)
+Theorem C03_source_collect : forall N (s : Builder.src),
+  Collect.run_collect N s GenCollect.gen_extend GenCollect.gen_try_from_iter = Some (try_from_iter N s) /\
+  Collect.run_collect N s GenCollect.gen_extend GenCollect.gen_try_boxed_from_iter = Some (Builder.try_boxed_from_iter N s).
+Proof. exact (fun N s => conj (CollectTie.tie_try_from_iter N s) (CollectTie.tie_try_boxed_from_iter N s)). Qed.
+
+(* the owned regroupings and the by-value conversions to / from native arrays are ONE reinterpretation of the whole
+   object: nothing is read, written, cloned or dropped element-wise *)
+Theorem C03_source_regroup_and_native :
+  transmute_of "GenericArray::Flatten::flatten" = Some ("const_transmute", "self") /\
+  transmute_of "GenericArray::Unflatten::unflatten" = Some ("const_transmute", "self") /\
+  thin_of "GenericArray<T,N>" "from_array" = Some "unsafe { crate :: const_transmute (value) }" /\
+  thin_of "GenericArray<T,N>" "into_array" = Some "unsafe { crate :: const_transmute (self) }".
+Proof. repeat split. Qed.
